@@ -142,17 +142,20 @@ def x86MemLabel (s : State) (sh : MShape) (l : Nat) (disp : BitVec 32) : State Ã
                                   rel := BitVec.ofInt 64 (-4 - (sh.imm.length : Int)), fmt := fmtS 4 }
         (s3.emit (zeros 4 ++ sh.imm), .ok)
     else
-      let rel0 : BitVec 32 := disp - BitVec.ofNat 32 (4 + sh.imm.length)
+      -- (as repaired upstream: the arithmetic is done in 64 bits and range-tested instead of wrapping in int32)
+      let rel64 : BitVec 64 := disp.signExtend 64 - BitVec.ofNat 64 (4 + sh.imm.length)
       let here : Option (BitVec 64) := match le with
         | .bound sec off => if sec = s.cur then some off else none
         | .unbound _ => none
       match here with
       | some off =>
-        let rel : BitVec 32 := rel0 + (off - BitVec.ofNat 64 fieldPos).truncate 32
-        (s.emit (sh.lead ++ leBytes rel.toNat 4 ++ sh.imm), .ok)
+        let rel := rel64 + (off - BitVec.ofNat 64 fieldPos)
+        if !isInt32 rel then (s, .invalidDisplacement) else
+        (s.emit (sh.lead ++ leBytes (rel.truncate 32).toNat 4 ++ sh.imm), .ok)
       | none =>
+        if !isInt32 rel64 then (s, .invalidDisplacement) else
         let s1 := s.emit sh.lead
-        let s2 := newFixup s1 l { sec := s.cur, lr := none, offset := fieldPos, rel := rel0.signExtend 64, fmt := fmtS 4 }
+        let s2 := newFixup s1 l { sec := s.cur, lr := none, offset := fieldPos, rel := rel64, fmt := fmtS 4 }
         (s2.emit (zeros 4 ++ sh.imm), .ok)
 
 /-! ### AArch64 -/
